@@ -75,6 +75,18 @@ Definition var_ok_b (st : @store G F) (inp : list uid) (off : list (uid * cind))
                     end) off &&
   nodup_b (map fst (filter (fun p => match fit (snd p) with None => true | Some _ => false end) off)).
 
+(* pre-set fitnesses of the initial population are truthful (hypothesis init_ok) *)
+Definition init_ok_b (p : evp) (st : @store G F) (pop : list uid) : bool :=
+  forallb (fun u => match st u with
+                    | Some i => match fit i with
+                                | None => true
+                                | Some f => zl_eqb f (ev_fun p (geno i))
+                                end
+                    | None => false
+                    end) pop.
+
+Definition to_ans (o : obs_gen) : cans := mkans (og_selidx o) (og_off o).
+
 Definition step_kind (p : evp) (w : list Z) (k : kind) (gen : nat) (s : cstate) (a : cans) : cstate :=
   match k with
   | KSimple => step_simple (ev_fun p) (wfle w) gen s a
@@ -145,12 +157,14 @@ Definition check (c : case) : bool :=
                 | _ => gen0 (ev_fun p) (wfle w) (init st0 pop)
                 end in
       let first := match k with KGU => 0 | _ => 1 end in
+      init_ok_b p st0 pop &&
       match check_gens p w k mu lam first s0 gens with
       | Some s => Nat.eqb (length gens) ngen && state_matches s o_calls o_log o_shown o_final && o_inplace
       | None => false
       end
   | CHarm ngen p w cxpb mutpb nbr objs pop gens o_calls o_log o_shown o_final o_inplace =>
       let st0 := add_objs empty_store objs in
+      init_ok_b p st0 pop &&
       match ea_harm (ev_fun p) (wfle w) cxpb mutpb nbr st0 pop gens with
       | Ok s => Nat.eqb (length gens) ngen && state_matches s o_calls o_log o_shown o_final && o_inplace
       | _ => false
